@@ -524,10 +524,22 @@ type Msg struct {
 	Target  vaa.ChainID
 	CL      uint8
 	Nonce   uint32
+	// TSKind: "" = T0 + TSOff + TSMs; "zero" = the zero time.Time (a watcher that did not fill the field);
+	// "epoch" = Unix 0; "2106" = the last second a 32-bit timestamp can hold
+	TSKind string
 }
 
 func (m Msg) Pub() *common.MessagePublication {
-	mp := &common.MessagePublication{Timestamp: T0.Add(time.Duration(m.TSOff)*time.Second + time.Duration(m.TSMs)*time.Millisecond), Nonce: m.Nonce, Sequence: m.Seq, ConsistencyLevel: m.CL,
+	ts := T0.Add(time.Duration(m.TSOff)*time.Second + time.Duration(m.TSMs)*time.Millisecond)
+	switch m.TSKind {
+	case "zero":
+		ts = time.Time{}
+	case "epoch":
+		ts = time.Unix(0, 0)
+	case "2106":
+		ts = time.Unix(1<<32-1, 0)
+	}
+	mp := &common.MessagePublication{Timestamp: ts, Nonce: m.Nonce, Sequence: m.Seq, ConsistencyLevel: m.CL,
 		EmitterChain: m.Chain, TargetChain: m.Target, EmitterAddress: m.Emitter, Payload: m.Payload}
 	mp.TxHash[0] = byte(m.Seq)
 	mp.TxHash[31] = 0x77
